@@ -353,6 +353,7 @@ type scenario struct {
 	setFail  bool // RecordUpdaterSetStatus returns an error
 	gcFail   bool // store.GC returns an error
 	meet     bool // workers leave driveUpdater in pairs, at the same moment
+	burst    bool // one run, every updater in flight at once: all start Fetch together and leave driveUpdater together
 }
 
 func (s *scenario) decls() []string {
